@@ -19,6 +19,7 @@ func TestServiceIsAccepted(t *testing.T) {
 			{Order: order, Init: "zero", Spawn: true}, {Order: order, Init: "rich", Leaky: true},
 			{Order: order, Init: "zero", Relay: true}, {Order: order, Init: "rich", Relay: true, Trigger: true},
 			{Order: order, Init: "zero", Exits: true}, {Order: order, Init: "rich", Exits: true, Leaky: true, Trigger: true},
+			{Order: order, Init: "zero", Out: true}, {Order: order, Init: "rich", Single: true}, {Order: order, Init: "rich", Out: true, Single: true, Trigger: true},
 		} {
 			ao := drive.Analyze(drive.Sources{"main": v.Source()}, "main", true)
 			if ao.Errors > 0 {
